@@ -247,6 +247,9 @@ def run(ctx):
         "to_string_lossy on ill-formed UTF-8: only 'owned string returned' is checked, not the replacement text",
         "error variant and the position carried by UnexpectedEof are compared between kinds (must agree) and against the model as drift only",
     ]
+    # ---- unbounded lemma: the window-safety invariant is inductive for a buffer of ANY length and ANY
+    # arguments (ReaderWindowInd.tla, Apalache).  A failure to run is recorded, never reported as a violation.
+    ctx.cov["apalache_inductive_invariant"] = apalache_window_lemma(ctx)
     ctx.finish("model_checking",
                rule="one case per distinct (buffer, byte order, handle table) state explored by TLC, one probe per operation applicable "
                     "in that state (= every transition of the state graph plus the inherent range constructors), each executed on six "
@@ -254,3 +257,26 @@ def run(ctx):
                exhaustive=True,
                extra_cov={"probes": stats["probes"], "probe_evaluations": stats["evals"],
                           "shadowed_kind_cases": stats["shadowed"]})
+
+
+def apalache_window_lemma(ctx):
+    import shutil, subprocess, os
+    from vlib import SPEC
+    if not shutil.which("apalache-mc"):
+        return {"status": "not run (apalache-mc not found)"}
+    out = os.path.join(ctx.work, "apalache")
+    res = {}
+    for name, args in (("Init=>IndInv", ["--init=Init", "--length=0"]), ("IndInv/\\Next=>IndInv'", ["--init=IndInit", "--length=1"])):
+        cmd = ["timeout", "600", "apalache-mc", "check", "--out-dir=" + out, "--cinit=ConstInit", "--inv=IndInv"] + args + ["ReaderWindowInd.tla"]
+        try:
+            p = subprocess.run(cmd, cwd=SPEC, stdout=subprocess.PIPE, stderr=subprocess.STDOUT, text=True)
+        except Exception as e:
+            return {"status": "not run (%s)" % e}
+        if "EXITCODE: OK" in p.stdout:
+            res[name] = "proved"
+        elif "violat" in p.stdout:
+            raise ToolError("Apalache refuted the inductive window invariant of ReaderWindowInd.tla (a design-level failure):\n" + p.stdout[-1500:])
+        else:
+            return {"status": "not run (apalache exit %s)" % p.returncode, "tail": p.stdout[-300:]}
+    shutil.rmtree(out, ignore_errors=True)
+    return {"status": "proved", "obligations": res, "tool": "apalache-mc check --cinit=ConstInit --inv=IndInv"}
